@@ -198,24 +198,26 @@ def annualdate_order(m1, d1, m2, d2):
             and (a >= b) == (ka >= kb) and (a == b) == (ka == kb) and a.month == m1 and a.day == d1)
 
 
-@lemma({"d1": int, "n1": int, "o1": int, "d2": int, "n2": int, "o2": int}, budget=120, per_path=30,
-       bounds="OffsetDateTime / OffsetDate / OffsetTime equality for every pair: equal exactly when local date, local time AND offset are all "
-              "equal (two values for the same instant with different offsets are NOT equal)")
-def offset_types_eq(d1, n1, o1, d2, n2, o2):
+@lemma({"d1": int, "n1": int, "o1": int, "d2": int, "n2": int, "o2": int, "other_cal": bool}, budget=120, per_path=30,
+       bounds="OffsetDateTime / OffsetDate / OffsetTime equality for every pair, in the same or in two different calendars: equal exactly when "
+              "calendar, local date, local time AND offset are all equal (two values for the same instant with different offsets, or the "
+              "same fields in different calendars, are NOT equal)")
+def offset_types_eq(d1, n1, o1, d2, n2, o2, other_cal):
     from props import daycal
     host = daycal.host("Coptic")
+    host2 = daycal.host("Julian") if other_cal else host
     for n in (n1, n2):
         assume(0 <= n < NPD)
     for o in (o1, o2):
         assume(-64800 <= o <= 64800)
-    da, db = daycal.date(host, d1), daycal.date(host, d2)
+    da, db = daycal.date(host, d1), daycal.date(host2, d2)
     ta, tb = LocalTime._ctor(nanoseconds=n1), LocalTime._ctor(nanoseconds=n2)
     oa, ob = Offset.from_seconds(o1), Offset.from_seconds(o2)
     x = OffsetDateTime(LocalDateTime._ctor(local_date=da, local_time=ta), oa)
     y = OffsetDateTime(LocalDateTime._ctor(local_date=db, local_time=tb), ob)
-    same = d1 == d2 and n1 == n2 and o1 == o2
+    same = d1 == d2 and n1 == n2 and o1 == o2 and not other_cal
     ok = (x == y) == same and (x != y) == (not same) and x.equals(y) == same
-    ok = ok and (OffsetDate(da, oa) == OffsetDate(db, ob)) == (d1 == d2 and o1 == o2)
+    ok = ok and (OffsetDate(da, oa) == OffsetDate(db, ob)) == (d1 == d2 and o1 == o2 and not other_cal)
     return ok and (OffsetTime(ta, oa) == OffsetTime(tb, ob)) == (n1 == n2 and o1 == o2)
 
 
